@@ -6,6 +6,7 @@ import NutsModel.C03.Api
 import NutsModel.C03.FsList
 import NutsModel.C03.External
 import NutsModel.C03.Configure
+import NutsModel.C03.Export
 import NutsModel.Facts.C03
 open Lean Nuts.Drv Nuts.C03 Nuts
 
@@ -267,6 +268,37 @@ def step (st : St) (j : Json) : St × List String :=
           else s!"probe=forwarded reqs={if remote then 1 else 0}"
         s!"backend=wrapped:{backendValidates b} inner={innerT b.ctor} {probe}"
     (st, [s!"configure res={res} {b}"])
+  | "fsexport" | "fs2vault" =>
+    -- crypto/cmd fsToOtherStorage: directory tree (regular files, walk order) -> wrapped recording target.
+    -- cnames/ckinds: what the top-level key files decode to ("bad" = no PEM block, else key number); pre = names already in
+    -- the target (keys 100+i); faults = names for which the backend behind the wrapper fails with "boom"
+    let astr (b : Bytes) : String := String.ofList (b.map Char.ofNat)
+    let paths := (jStrs j "files").map unhex
+    let cn := (jStrs j "cnames").map unhex
+    let ck := jStrs j "ckinds"
+    let content (n : Bytes) : SrcGet :=
+      match (cn.zip ck).find? (fun p => p.1 == n) with
+      | some (_, "bad") => .err "failed to decode PEM block containing private key"
+      | some (_, k) => .key k.toNat!
+      | none => .err "no content given"
+    let missing (n : Bytes) : String := "could not open entry " ++ astr n ++ " with filename $DIR/" ++ astr (fsEntryFileName n entryType) ++ ": entry not found"
+    let faults := (jStrs j "faults").map unhex
+    let fault (n : Bytes) : Option String := if faults.contains n then some "boom" else none
+    let pre : Tgt := (((jStrs j "pre").map unhex).zipIdx).map fun (n, i) => (n, 100 + i)
+    match (List.range 256).map (fun b => validB [b]) |>.all Option.isSome with
+    | false => (st, ["fsexport model-not-applicable"])
+    | true =>
+      let vld := fun n => (validB n).getD false
+      let r := fs2target Nuts.Facts.C03.exportGetErr Nuts.Facts.C03.exportSaveErr astr paths entryType content missing
+        (if jStr j "op" == "fs2vault" then wrappedPut vld astr fault else wrappedSave vld astr fault) pre
+      let err := match r.error with | none => "-" | some e => "\"" ++ e ++ "\""
+      if jStr j "op" == "fs2vault" then
+        -- the real command against the Vault stub: every stored entry is one PUT of key material to its Vault path
+        (st, ["fs2vault keys=[" ++ String.intercalate "," (r.exported.map hex) ++ "] err=" ++ err ++ " puts=["
+            ++ String.intercalate "," (r.target.map fun e => "PUT:" ++ hex (ascii "/v1/" ++ vaultKeyPath (ascii "kv") Nuts.Facts.C03.vaultKeyPathName e.1)) ++ "]"])
+      else
+      (st, ["fsexport keys=[" ++ String.intercalate "," (r.exported.map hex) ++ "] err=" ++ err ++ " target=["
+            ++ String.intercalate "," (r.target.map fun e => hex e.1 ++ ":K" ++ toString e.2) ++ "]"])
   | o => (st, ["bad-op:" ++ o])
 
 end Nuts.Drv.C03
